@@ -120,19 +120,26 @@ class Form:
 
 
 class Bad:
-    """Undefined / wrapped result for every member of the cell; `node` is the first offender."""
-    __slots__ = ("kind", "node")
+    """Undefined / wrapped result for every member of the cell; `node` is the first offender.
+    (kind 'remainder-narrowed': for the member `example` of the cell, see `detail`.)"""
+    __slots__ = ("kind", "node", "example", "detail")
 
-    def __init__(self, kind, node):
+    def __init__(self, kind, node, example=None, detail=""):
         self.kind = kind
         self.node = node
+        self.example = example
+        self.detail = detail
 
     def __repr__(self):
         return "Bad(%s)" % self.kind
 
 
 class NonZero:
-    """Some value known only to be non-zero (remainder of a non-divisible class)."""
+    """Some value known only to be non-zero (remainder of a non-divisible class): |value| <= bound;
+    it is (p*x + q) rem D where known."""
+
+    def __init__(self, bound=None, p=None, q=None, D=None):
+        self.bound, self.p, self.q, self.D = bound, p, q, D
 
     def __repr__(self):
         return "NonZero"
@@ -320,6 +327,40 @@ class Evaluator:
         bits = dag.INT_BITS[n.ty]
         if op in ("sext", "zext", "trunc"):
             a = self.ev(n.args[0])
+            if isinstance(a, NonZero) and op == "trunc":
+                # a non-zero remainder survives a narrowing only if it cannot be a multiple of 2^bits
+                if a.bound is not None and a.bound < (1 << bits):
+                    return a
+                c = self.cell.cls
+                if a.D is not None and a.p is not None and abs(a.p) == 1 and (c is None or not c[2]):
+                    # is there a member of the cell whose remainder is a NON-ZERO multiple of 2^bits
+                    # (read as zero after the cast)?  With p = +-1 the residues of p*x + q over the
+                    # cell are one or two runs of consecutive values.
+                    span, D = 1 << bits, a.D
+                    lo, hi = self.cell.lo, self.cell.hi
+                    wit = None
+                    if hi - lo + 1 >= D:
+                        want = span % D
+                        start = max(lo, 0) if hi >= 0 else lo
+                        x0 = ((want - a.q) * a.p) % D
+                        wit = start + ((x0 - start) % D)
+                    else:
+                        e1, e2 = (a.p * lo + a.q) % D, (a.p * hi + a.q) % D
+                        if a.p < 0:
+                            e1, e2 = e2, e1
+                        runs = [(e1, e2)] if e1 <= e2 else [(e1, D - 1), (0, e2)]
+                        for (ra, rb) in runs:
+                            m = max(span, -(-ra // span) * span)
+                            if m <= rb:
+                                x0 = ((m - a.q) * a.p) % D
+                                wit = lo + ((x0 - lo) % D)
+                                break
+                    if wit is None:
+                        return a  # no member's remainder is a non-zero multiple of 2^bits
+                    if wit <= hi:
+                        return Bad("remainder-narrowed", n, example=wit,
+                                   detail="the remainder by %d is narrowed to %d bits before it is tested: for x = %d it is a non-zero multiple of 2^%d, read as 0" % (D, bits, wit, bits))
+                return Top("non-zero remainder narrowed to %d bits" % bits)
             if not isinstance(a, Form):
                 return a
             sb = dag.INT_BITS[n.args[0].ty]
@@ -455,7 +496,7 @@ class Evaluator:
             # (p x + q) == 0 (mod D)  <=>  x == r (mod M)
             g = gcd(a.p, D)
             if a.q % g != 0:
-                return NONZERO
+                return NonZero(D - 1, a.p, a.q, D)
             M = D // g
             if M == 1:
                 return K(0)
@@ -464,7 +505,7 @@ class Evaluator:
             if c is None:
                 raise Split(cls=(M, r))
             if (c[0], c[1]) == (M, r):
-                return K(0) if c[2] else NONZERO
+                return K(0) if c[2] else NonZero(D - 1, a.p, a.q, D)
             if c[2] and c[0] % M == 0 and c[1] % M == r:
                 return K(0)  # member of a finer class
             return Top("second congruence class (mod %d) inside cell with class mod %d" % (M, c[0]))
@@ -596,16 +637,19 @@ def analyse(roots, lo, hi, param_index=0, pre_classes=(), ret_views=None, arith=
                         res[k] = Bad("narrowing-changes-value", roots[k])
             for k, lst in (arith or {}).items():
                 first_bad = None
+                ea = ew if k in (wrap_roots or ()) else e
                 for g, node in lst:
-                    gv = e.ev(g)
+                    gv = ea.ev(g)
                     if isinstance(gv, Bad):
                         continue  # guard itself depends on an undefined value: reported via its source
                     gb = as_bool(gv)
                     if gb is None:
+                        if k in (wrap_roots or ()):
+                            continue  # a checker's dead instruction under a guard this domain cannot decide
                         raise AnalysisBroken("guard of %s undecided on %r: %r" % (node.pretty()[:80], cell, gv))
                     if not gb:
                         continue
-                    v = e.ev(node)
+                    v = ea.ev(node)
                     if isinstance(v, Bad) and first_bad is None:
                         first_bad = v
                 res["!" + k] = first_bad
